@@ -577,6 +577,8 @@ class Runner:
         key = (cls_i, ref)
         if key in objs:
             return objs[key]
+        if cls_i >= len(CLASSES):
+            raise Unsupported("class index outside the class table (unconstrained heap cell of the counter-model)")
         cn = CLASSES[cls_i]
         ev = lambda t: m.eval(t, model_completion=True)
         import microjs.values as V
@@ -644,6 +646,8 @@ class Runner:
         elif cn == "Context":
             from microjs.context import Context
             o = Context()
+        elif objs.get("__heap__"):
+            o = object()            # a host object of a class the script never sees (placeholder in a counter-model)
         else:
             raise Unsupported(f"materialise {cn}")
         objs[key] = o
@@ -651,9 +655,12 @@ class Runner:
             # own-property dictionaries and prototype link of the initial heap
             for fld in ("_properties", "_getters", "_setters"):
                 dv = ev(z3.Select(h0(fld), ref))
-                if dv.decl().name() == "VRef" and CLASSES[dv.arg(0).as_long()] == "dict":
+                if dv.decl().name() == "VRef" and dv.arg(0).as_long() < len(CLASSES) and CLASSES[dv.arg(0).as_long()] == "dict":
                     d = self.ref_to_py(eng, p, m, dv.arg(0).as_long(), dv.arg(1).as_long(), objs)
                     getattr(o, fld).update(d)
+            kv = ev(z3.Select(h0("_key_order"), ref))
+            if kv.decl().name() == "VRef" and kv.arg(0).as_long() < len(CLASSES) and CLASSES[kv.arg(0).as_long()] == "dict":
+                o._key_order = dict.fromkeys(self.ref_to_py(eng, p, m, kv.arg(0).as_long(), kv.arg(1).as_long(), objs))
             pv = ev(z3.Select(h0("_prototype"), ref))
             depth = objs.get("__depth__", 0)
             if pv.decl().name() == "VRef" and depth < 6:
